@@ -330,7 +330,45 @@ pub struct ViolationReport {
     pub no_failing_input_found: bool,
 }
 
+/// The case each worker thread is executing, for the hang watchdog: (thread, case json, started).
+pub static CURRENT_CASES: std::sync::Mutex<Vec<(String, String, std::time::Instant)>> = std::sync::Mutex::new(Vec::new());
+
+/// If a case runs longer than `limit`, the implementation hangs: report it as a violation with the
+/// case as the replay and stop (a hung thread cannot be cancelled).
+pub fn start_watchdog(property: &'static str, replay_dir: PathBuf, limit: std::time::Duration) {
+    std::thread::spawn(move || loop {
+        std::thread::sleep(std::time::Duration::from_secs(1));
+        let hung = {
+            let g = CURRENT_CASES.lock().unwrap();
+            g.iter().find(|(_, _, t)| t.elapsed() > limit).map(|(_, ops, _)| ops.clone())
+        };
+        if let Some(ops) = hung {
+            std::fs::create_dir_all(&replay_dir).ok();
+            let path = replay_dir.join(format!("{property}-hang.json"));
+            let v = format!(
+                "{{\"property\":\"{property}\",\"kind\":\"ImplCrashed\",\"note\":\"the case did not finish within {}s (hang)\",\"ops\":{ops}}}",
+                limit.as_secs()
+            );
+            std::fs::write(&path, v).ok();
+            println!("VIOLATION property={property} replay={}", path.display());
+            std::process::exit(1);
+        }
+    });
+}
+
 fn exec_catch<P: Property>(p: &P, ops: &[P::Op]) -> Result<Vec<Line>, String> {
+    let me = format!("{:?}", std::thread::current().id());
+    {
+        let mut g = CURRENT_CASES.lock().unwrap();
+        g.retain(|(t, _, _)| *t != me);
+        g.push((me.clone(), serde_json::to_string(ops).unwrap_or_default(), std::time::Instant::now()));
+    }
+    let r = exec_catch_inner(p, ops);
+    CURRENT_CASES.lock().unwrap().retain(|(t, _, _)| *t != me);
+    r
+}
+
+fn exec_catch_inner<P: Property>(p: &P, ops: &[P::Op]) -> Result<Vec<Line>, String> {
     let r = std::panic::catch_unwind(std::panic::AssertUnwindSafe(|| p.execute(ops)));
     match r {
         Ok(Ok(l)) => Ok(l),
@@ -455,7 +493,10 @@ pub fn run_property<P: Property>(p: &P, cfg: &RunCfg) -> anyhow::Result<RunRepor
     std::thread::scope(|s| {
         for (ops_chunk, res_chunk) in named.chunks(chunk).zip(results.chunks_mut(chunk)) {
             s.spawn(move || {
-                for ((_, ops), slot) in ops_chunk.iter().zip(res_chunk.iter_mut()) {
+                for ((name, ops), slot) in ops_chunk.iter().zip(res_chunk.iter_mut()) {
+                    if std::env::var("VERIF_TRACE").is_ok() {
+                        eprintln!("case {name}: {}", serde_json::to_string(ops).unwrap_or_default());
+                    }
                     *slot = Some(exec_catch(p, ops));
                 }
             });
